@@ -1,6 +1,7 @@
 package main
 
 import (
+	"fmt"
 	"reflect"
 	"runtime"
 	"runtime/debug"
@@ -192,6 +193,55 @@ func c20(args []string) int {
 			rec["exec"] = callThrough(s, n)
 		}
 		out.Put(rec)
+	}
+	// ---- every interface-stub sized region of the reserve is written and read back (some lie across a page boundary)
+	{
+		stub.VerifResetHolder()
+		regions, cross, badWrites := 0, 0, 0
+		firstBad := ""
+		page := uintptr(syscall.Getpagesize())
+		for {
+			s, err := stub.VerifHolderSpace(48)
+			if err != nil {
+				break
+			}
+			regions++
+			if s.Addr/page != (s.Addr+47)/page {
+				cross++
+			}
+			data := make([]byte, 48)
+			for i := range data {
+				data[i] = byte(0xC0 + regions%32)
+			}
+			why := ""
+			func() {
+				old := debug.SetPanicOnFault(true)
+				defer debug.SetPanicOnFault(old)
+				defer func() {
+					if e := recover(); e != nil {
+						why = "write faults: " + trunc(fmt.Sprint(e), 100)
+					}
+				}()
+				if err := stub.Write(s, data); err != nil {
+					why = "write error: " + err.Error()
+					return
+				}
+				back := *(*[]byte)(unsafe.Pointer(&reflect.SliceHeader{Data: s.Addr, Len: 48, Cap: 48}))
+				for i := range data {
+					if back[i] != data[i] {
+						why = "read back differs"
+					}
+				}
+			}()
+			if why != "" {
+				badWrites++
+				if firstBad == "" {
+					firstBad = fmt.Sprintf("region %d at reserve offset %d (crosses a page: %v): %s", regions, s.Addr-min, s.Addr/page != (s.Addr+47)/page, why)
+				}
+			}
+		}
+		stub.VerifResetHolder()
+		out.Put(map[string]interface{}{"kind": "reserve_sweep", "regions": regions, "cross_page": cross, "bad": badWrites, "first": firstBad})
 	}
 	// ---- concurrent requesters on the fallback allocator
 	procs := runtime.GOMAXPROCS(0)
